@@ -91,7 +91,7 @@ PROPS = {
     # "one vote per term, ever" also rests on RawNode's persistence flags (must_sync, release classification): RawNode tie too
     "C02": cluster(["C02"], ["*"], ["role", "vote"], component=["RN", "C07"]),
     "C03": cluster(["C03"], ["*"], ["vote"], component="RN"),
-    "C04": cluster(["C04"], ["*"], ["commit"], component="RN"),
+    "C04": cluster(["C04"], ["*"], ["commit"], component=["RN", "C11"]),
     "C05": cluster(["C05"], ["*"], ["log"], component="RN"),
     "C09": cluster(["C09"], ["bootstrap", "applyconf", "cfginit"], [], component="RN"),
     "C13": cluster(["C13"], ["sendapp", "sendhb"], [], component="RN"),
